@@ -14,7 +14,7 @@ Local Open Scope Z_scope.
    fresh generation; every other object (so every source but the destination) is untouched *)
 Theorem C15_compose_concat : forall s b dst srcs dm cp c,
   resolve_conds s cp = Some c ->
-  contains dst s_compose = false ->
+  contains dst s_compose = false -> dst <> [] ->
   Z.of_nat (length srcs) <= gcsMaxComposeSources ->
   Forall (src_usable s b) srcs ->
   validate_conds (obj_gens (find_obj s b dst)) c = VPass ->
@@ -54,7 +54,7 @@ Print Assumptions C15_compose_too_many_400.
 (* a missing source (all sources before it usable): 404, state unchanged *)
 Theorem C15_compose_missing_source_404 : forall s b dst pre sc post dm cp c,
   resolve_conds s cp = Some c ->
-  contains dst s_compose = false ->
+  contains dst s_compose = false -> dst <> [] ->
   Z.of_nat (length (pre ++ sc :: post)) <= gcsMaxComposeSources ->
   Forall (src_usable s b) pre -> find_obj s b (fst sc) = None ->
   handle s (RCompose b dst false (pre ++ sc :: post) dm cp) = (s, err 404).
@@ -74,7 +74,7 @@ Print Assumptions C15_compose_unusable_source_fails.
 Theorem C15_copy_clones : forall s b1 n1 b2 n2 f1 rest b2' f2 o,
   contains (n1 ++ s_rewrite_b ++ b2 ++ s_o ++ n2) s_compose = false ->
   split (n1 ++ s_rewrite_b ++ b2 ++ s_o ++ n2) s_rewrite_b = [f1; rest] ->
-  split2 rest s_o = [b2'; f2] ->
+  split2 rest s_o = [b2'; f2] -> f2 <> [] ->
   find_obj s b1 f1 = Some o ->
   let s' := fst (handle s (RCopy b1 n1 b2 n2)) in
   let rsp := snd (handle s (RCopy b1 n1 b2 n2)) in
@@ -88,7 +88,7 @@ Print Assumptions C15_copy_clones.
 Theorem C15_copy_source_untouched : forall s b1 n1 b2 n2 f1 rest b2' f2 o,
   contains (n1 ++ s_rewrite_b ++ b2 ++ s_o ++ n2) s_compose = false ->
   split (n1 ++ s_rewrite_b ++ b2 ++ s_o ++ n2) s_rewrite_b = [f1; rest] ->
-  split2 rest s_o = [b2'; f2] ->
+  split2 rest s_o = [b2'; f2] -> f2 <> [] ->
   find_obj s b1 f1 = Some o -> (b1, f1) <> (b2', f2) ->
   find_obj (fst (handle s (RCopy b1 n1 b2 n2))) b1 f1 = Some o.
 Proof. exact copy_source_untouched. Qed.
@@ -97,7 +97,7 @@ Print Assumptions C15_copy_source_untouched.
 Theorem C15_copy_missing_404 : forall s b1 n1 b2 n2 f1 rest b2' f2,
   contains (n1 ++ s_rewrite_b ++ b2 ++ s_o ++ n2) s_compose = false ->
   split (n1 ++ s_rewrite_b ++ b2 ++ s_o ++ n2) s_rewrite_b = [f1; rest] ->
-  split2 rest s_o = [b2'; f2] ->
+  split2 rest s_o = [b2'; f2] -> f2 <> [] ->
   find_obj s b1 f1 = None ->
   handle s (RCopy b1 n1 b2 n2) = (s, err 404).
 Proof. exact copy_missing_404. Qed.
@@ -111,6 +111,30 @@ Theorem C15_copy_200_inv : forall s b1 n1 b2 n2,
     /\ fst (handle s (RCopy b1 n1 b2 n2)) = store_add s b2' f2 (o_data o) (o_ctype o) (o_md5 o) (o_meta o).
 Proof. exact copy_200_inv. Qed.
 Print Assumptions C15_copy_200_inv.
+
+(* a destination name that parses to "" is refused by both handlers (400 "missing destination object
+   name"), in every state, and nothing changes; this is the case the theorems above exclude with
+   dst <> [] / f2 <> [] *)
+Theorem C15_empty_destination_rejected : forall s,
+  (forall b dst bad srcs dm cp, compose_dst dst = Some [] ->
+     handle s (RCompose b dst bad srcs dm cp) = (s, err 400))
+  /\ (forall b1 n1 b2 n2, copy_dst n1 b2 n2 = Some [] ->
+     handle s (RCopy b1 n1 b2 n2) = (s, err 400)).
+Proof. exact empty_destination_rejected. Qed.
+Print Assumptions C15_empty_destination_rejected.
+
+(* the requests that used to store an object named "": 400 now, nothing stored *)
+Example C15_empty_destination_rejected_example :
+  let cp := mkCP (PRaw []) (PRaw []) (PRaw []) (PRaw []) in
+  let bk := [98]%N in
+  let r1 := RCompose bk [] false [] None cp in
+  let rs2 := [RUploadMedia bk [97]%N [116]%N [1]%N cp; RCopy bk [97]%N bk []] in
+  compose_dst [] = Some [] /\ copy_dst [97]%N bk [] = Some []
+  /\ map r_status (snd (run init_state [r1])) = [400]
+  /\ get_bucket (fst (run init_state [r1])) bk = None
+  /\ map r_status (snd (run init_state rs2)) = [200; 400]
+  /\ option_map (map fst) (get_bucket (fst (run init_state rs2)) bk) = Some [[97]%N].
+Proof. exact empty_destination_rejected_example. Qed.
 
 (* non-vacuity: see compose_copy_example in GCS/ComposeProofs.v (x ++ y ++ x composed into x,
    a 404, a 33-source 400, a copy and a copy of a missing object on a concrete state) *)
